@@ -129,6 +129,12 @@ def run(ctx, rep):
     # C05.7: an Ok flush_meta means the writes it stands for are done - a second flusher must not return while the first one,
     # which already cleared the flags, still has them in flight
     c04.flusher_serialisation(f, rep, 'C05.7')
+    # C05.8/9: a slice evicted while an operation holds it is updated as an orphan; those updates (refcounts of clusters that hold
+    # synced data) never reach the file and the clusters are handed out again
+    from . import evict
+    _pops = evict.find_pops(f, P)
+    evict.presence(f, rep, 'C05.8', _pops)
+    evict.report(f, rep, 'C05.9', _pops)
     impls = [im for im in f.impls if im.get('trait') == 'ops::Qcow2IoOps']
     rep.floor('Qcow2IoOps implementations', len(impls), 3)
     for im in impls:
